@@ -242,14 +242,24 @@ def extrude_config(h, order=(0, 1)):
         h.concrete('one prism per (triangle, segment)', np.asarray(W.t).shape == (6, n - 1))
         Pw, tw = W.doflocs, np.asarray(W.t)
         P = mt.doflocs
-        # bottom and top faces of prism i are the triangle at levels i and i + 1
-        for i in range(min(n - 1, tw.shape[1])):
+        # every prism: bottom face = the triangle at one level, top face = the same triangle (vertex by vertex) at the NEXT higher level;
+        # every pair of consecutive levels is used by exactly one prism (the order of the prisms is not demanded)
+        def same(a, b_):
+            if h.sym_mode:
+                return tosym(a).c == tosym(b_).c if tosym(a).c is not None and tosym(b_).c is not None else tosym(a).a.eq(tosym(b_).a)
+            return float(a) == float(b_)
+        used = []
+        for i in range(tw.shape[1]):
             for a in range(3):
                 for d in range(2):
                     h.zero('prism %d bottom vertex %d [%d]' % (i, a, d), Pw[d, tw[a, i]] - P[d, np.asarray(mt.t)[a, 0]])
                     h.zero('prism %d top vertex %d [%d]' % (i, a, d), Pw[d, tw[a + 3, i]] - P[d, np.asarray(mt.t)[a, 0]])
-                h.zero('prism %d bottom vertex %d z == level %d' % (i, a, i), Pw[2, tw[a, i]] - z[0, order[i]])
-                h.zero('prism %d top vertex %d z == level %d' % (i, a, i + 1), Pw[2, tw[a + 3, i]] - z[0, order[i + 1]])
+            zb, zt = Pw[2, tw[0, i]], Pw[2, tw[3, i]]
+            h.concrete('prism %d: flat bottom and top faces' % i, all(same(Pw[2, tw[a, i]], zb) and same(Pw[2, tw[a + 3, i]], zt) for a in range(3)))
+            lev = [r for r in range(n - 1) if same(zb, z[0, order[r]]) and same(zt, z[0, order[r + 1]])]
+            h.concrete('prism %d spans two consecutive levels, bottom below top' % i, len(lev) == 1, 'levels matched: %s' % lev)
+            used += lev
+        h.concrete('every pair of consecutive levels is filled by exactly one prism', sorted(used) == list(range(n - 1)), str(used))
 
 
 def to_meshtet_config(h, kind, ncells):
